@@ -1,5 +1,7 @@
 import YardlModel.WireJson
 import YardlModel.Streams
+import YardlModel.PyStream
+import YardlModel.NdjsonReader
 import YardlModel.Batch
 import YardlModel.Expr
 import YardlModel.Imports
@@ -70,6 +72,29 @@ def runCis (s : CIS) : List Json → List String → Except String (List String)
       | _ => throw s!"bad rop {tag}"
     match res with
     | some (tok, s') => runCis s' rest (tok :: acc)
+    | none => pure (stop :: acc).reverse
+
+/-- Runs reader ops on the model of the Python CodedInputStream; one output token per op, stops at the first failure. -/
+def runPis (s : PIS) : List Json → List String → Except String (List String)
+  | [], acc => pure acc.reverse
+  | j :: rest, acc => do
+    let a ← j.getArr?
+    let tag ← (a[0]?.getD Json.null).getStr?
+    let arg (i : Nat) : Json := a[i]?.getD Json.null
+    let fin {α} (r : POut α) (f : α → String) : Except String (Option (String × PIS) × String) :=
+      match r with
+      | .ok x s' => pure (some (f x, s'), "")
+      | .eof => pure (none, "EOS")
+      | .bufferError => pure (none, "BUFERR")
+    let (res, stop) ← match tag with
+      | "b" => fin s.readByte (fun b => s!"b={b.toNat}")
+      | "v32" | "v64" => fin s.readVar (fun n => s!"v={n}")
+      | "s32" | "s64" => fin s.readVar (fun n => s!"s={unzigzag n}")
+      | "f" => do fin (s.readFixed (← jNat (arg 1))) (fun n => s!"f={n}")
+      | "x" => do fin (s.readBytes (← jNat (arg 1))) (fun bs => s!"x={toHex bs}")
+      | _ => throw s!"bad rop {tag}"
+    match res with
+    | some (tok, s') => runPis s' rest (tok :: acc)
     | none => pure (stop :: acc).reverse
 
 /-- Decode as many items of a (possibly cut) stream step as possible. Returns items, whether the
@@ -574,6 +599,29 @@ def handle (j : Json) : Except String Json := do
     let some bs := ofHex h | throw "bad hex"
     let ops ← (← j.getObjVal? "ops").getArr?
     let out ← runCis (CIS.init cap bs) ops.toList []
+    pure (Json.mkObj [("out", Json.arr (out.map Json.str).toArray)])
+  | "nd_read" =>
+    -- the NDJSON step reader on a sequence of lines: "steps": [[name, isStream]...], "lines": [name...] (line i carries value i)
+    let steps ← (← (← j.getObjVal? "steps").getArr?).toList.mapM fun e => do
+      let a ← e.getArr?
+      pure (nameCode (← (a[0]?.getD Json.null).getStr?), ← (a[1]?.getD Json.null).getBool?)
+    let names ← (← (← j.getObjVal? "lines").getArr?).toList.mapM fun e => do pure (nameCode (← e.getStr?))
+    let lines : List (Nat × Nat) := names.zipIdx
+    match Nd.readSteps steps { lines := lines, unused := none } with
+    | none => pure (Json.mkObj [("error", Json.bool true)])
+    | some (vals, st) =>
+      let enc (v : Nd.StepVal Nat) : Json := match v with
+        | .single i => Json.arr #[jn i]
+        | .stream is => Json.arr (is.map jn).toArray
+      pure (Json.mkObj [("steps", Json.arr (vals.map enc).toArray),
+        ("leftover", jn ((match st.unused with | some _ => 1 | none => 0) + st.lines.length))])
+  | "pis" =>
+    -- the Python CodedInputStream model on a byte string at a given buffer size
+    let cap ← jNat (← j.getObjVal? "cap")
+    let h ← (← j.getObjVal? "hex").getStr?
+    let some bs := ofHex h | throw "bad hex"
+    let ops ← (← j.getObjVal? "ops").getArr?
+    let out ← runPis (PIS.init cap bs) ops.toList []
     pure (Json.mkObj [("out", Json.arr (out.map Json.str).toArray)])
   | _ => throw s!"unknown op {op}"
 
